@@ -22,6 +22,7 @@ class RunCtx:
         self.events = []         # chronological: (kind, agent_id, payload)
         self.consults = {}       # agent_id -> number of submit_orders calls
         self.own_orders = {}     # agent_id -> list of Order objects it created
+        self.snap = {}           # id(order) -> what the agent asked for (before any event touched it)
         self.runner = None
         self.logger = None
         self.on_event = None     # callback(kind, agent, payload) for online oracles
@@ -53,7 +54,8 @@ def _decide(agent, markets):
     limit = menu.get("max_consults")
     if limit is not None and k >= limit:
         return []
-    if t < menu.get("active_from", 0) or t > menu.get("active_until", 10 ** 9):
+    win = (per_agent or {}).get("active", [menu.get("active_from", 0), menu.get("active_until", 10 ** 9)])
+    if t < win[0] or t > win[1]:
         return []
     out = []
     for j in range(menu.get("max_orders", 1)):
@@ -83,7 +85,12 @@ def _decide(agent, markets):
         if act == "market":
             o = Order(agent_id=aid, market_id=m.market_id, is_buy=is_buy, kind=MARKET_ORDER, volume=v, ttl=ttl)
         else:
-            if "price_fixed" in menu:
+            pbt = menu.get("price_by_time")
+            if pbt is not None and pbt.get(str(t), pbt.get("default")) != "sym":
+                p = pbt.get(str(t), pbt.get("default"))
+            elif "price_rel" in menu:
+                p = m.get_market_price() + (-menu["price_rel"] if is_buy else menu["price_rel"])
+            elif "price_fixed" in menu:
                 p = menu["price_fixed"]
             else:
                 p = g.int(f"{tag}_p", menu.get("price_lo", 1), menu.get("price_hi", PRICE_HI))
@@ -92,6 +99,8 @@ def _decide(agent, markets):
             o = Order(agent_id=aid, market_id=m.market_id, is_buy=is_buy, kind=LIMIT_ORDER, volume=v,
                       price=p, ttl=ttl)
         ctx.own_orders.setdefault(aid, []).append(o)
+        ctx.snap[id(o)] = {"is_buy": o.is_buy, "kind": o.kind, "price": o.price, "volume": o.volume,
+                           "ttl": o.ttl, "market_id": o.market_id, "agent_id": aid, "t": t}
         out.append(o)
     ctx.emit("decided", agent, list(out))
     return out
